@@ -188,22 +188,59 @@ def run_job(job, work, tier, log):
         return b
 
     def cbmc(b, extra, tag):
-        cmd = ["cbmc", b, "--json-ui", "--drop-unused-functions"] + job.safety + job.cbmc + extra
+        base = ["cbmc", b, "--json-ui", "--drop-unused-functions"] + job.safety + job.cbmc + extra
         if job.objbits:
-            cmd += ["--object-bits", str(job.objbits)]
-        if job.solver == "kissat":
-            cmd += ["--external-sat-solver", "kissat"]
-        elif job.solver in ("cvc5", "z3"):
-            cmd += ["--" + job.solver]
-        elif job.solver == "cadical" or (job.solver is None and os.environ.get("VERIF_DEFAULT_SOLVER") == "cadical"):
-            cmd += ["--sat-solver", "cadical"]
-        outp = os.path.join(jw, "out_%s.json" % tag)
-        with open(outp, "wb") as fo:
-            rc, _, err, secs = sh(cmd, timeout=job.timeout, stdout=fo)
-        info["cmds"].append(" ".join(cmd))
+            base += ["--object-bits", str(job.objbits)]
+        solver_flags = {"minisat": [], "cadical": ["--sat-solver", "cadical"], "cvc5": ["--cvc5"], "z3": ["--z3"],
+                        "kissat": ["--external-sat-solver", "kissat"]}
+        if job.solver == "portfolio":
+            names = ["minisat", "cadical", "cvc5"]
+        else:
+            names = [job.solver or ("cadical" if os.environ.get("VERIF_DEFAULT_SOLVER") == "cadical" else "minisat")]
+        procs = []
+        t_start = time.time()
+        for nm in names:
+            outp = os.path.join(jw, "out_%s_%s.json" % (tag, nm))
+            fo = open(outp, "wb")
+            def pre():
+                import resource
+                resource.setrlimit(resource.RLIMIT_AS, (MEM_KB * 1024, MEM_KB * 1024))
+                os.setsid()
+            pr = subprocess.Popen(base + solver_flags[nm], stdout=fo, stderr=subprocess.DEVNULL, preexec_fn=pre)
+            procs.append((nm, pr, outp, fo))
+        info["cmds"].append(" ".join(base + (solver_flags[names[0]] if len(names) == 1 else ["<portfolio: minisat | cadical | cvc5, first to finish>"])))
+        winner = None
+        try:
+            while True:
+                running = 0
+                for nm, pr, outp, fo in procs:
+                    rc = pr.poll()
+                    if rc is None:
+                        running += 1
+                    elif rc in (0, 10) and winner is None:
+                        winner = (nm, rc, outp)
+                if winner or running == 0:
+                    break
+                if time.time() - t_start > job.timeout:
+                    raise ToolProblem("timeout after %ss: %s" % (job.timeout, " ".join(base[:6])))
+                time.sleep(0.2)
+        finally:
+            for nm, pr, outp, fo in procs:
+                if pr.poll() is None:
+                    try:
+                        os.killpg(pr.pid, 9)
+                    except Exception:
+                        pr.kill()
+                    pr.wait()
+                fo.close()
+        secs = time.time() - t_start
+        if winner is None:
+            nm, pr, outp, fo = procs[0]
+            text = open(outp, encoding="utf-8", errors="replace").read()
+            raise ToolProblem("cbmc rc=%s (%s): %s" % (pr.returncode, job.name, text[-1500:]))
+        nm, rc, outp = winner
+        info.setdefault("solvers_used", []).append(nm)
         text = open(outp, encoding="utf-8", errors="replace").read()
-        if rc not in (0, 10):
-            raise ToolProblem("cbmc rc=%s (%s): %s %s" % (rc, job.name, text[-1500:], err[-500:]))
         res, msgs, status = parse_cbmc_json(text)
         for typ, m in msgs:
             if "ignoring" in m and ("forall" in m or "exists" in m or "quantif" in m):
@@ -418,7 +455,7 @@ def finish(pid, tier, seed, mod, jobs, results, problems, work, wall):
                         "replaced_by_contract": j.replace, "loop_contracts": j.loops,
                         "obligations": len(r["obligations"]), "discharged": len(oks),
                         "solver_s": r["solver_s"], "wall_s": r["wall_s"],
-                        "backend": j.solver or ("cadical (cbmc built-in)" if os.environ.get("VERIF_DEFAULT_SOLVER") == "cadical" else "minisat (cbmc built-in)"),
+                        "backend": ",".join(sorted(set(r.get("solvers_used", [])))) or (j.solver or "minisat"),
                         "bounded": j.bounded, "sentinel": r["sentinel"], "cover": r["cover"],
                         "extracted": r["extracted"], "note": j.note,
                         "config": j.defines})
